@@ -184,8 +184,10 @@ pub fn build(case: &Case, ctx: &mut CaseCtx) -> Built {
                     2 => Some(Expiration::AtHeight(h0 + 100_000 + s as u64)),
                     _ => Some(Expiration::AtTime(cosmwasm_std::Timestamp::from_seconds(t0 + 10_000_000 + s as u64))),
                 };
+                // some grants carry no amount at all (they only register a deadline): entries like any other
+                let granted = if s % 9 == 4 { 0 } else { 10 + s as u128 };
                 must(
-                    exec(&mut d, owner, Cw20ExecuteMsg::IncreaseAllowance { spender: spender.to_string(), amount: Uint128::new(10 + s as u128), expires }),
+                    exec(&mut d, owner, Cw20ExecuteMsg::IncreaseAllowance { spender: spender.to_string(), amount: Uint128::new(granted), expires }),
                     "increase allowance",
                 );
                 // the same counterparties under a different prefix must not leak into this listing
@@ -211,14 +213,16 @@ pub fn build(case: &Case, ctx: &mut CaseCtx) -> Built {
                     );
                     ctx.count("cw20_allowance_removed");
                 } else {
-                    // value changes on surviving entries
-                    if s % 5 == 0 {
+                    // value changes on surviving entries (not on the grants without an amount: any decrease
+                    // removes those, and nothing can be drawn on them)
+                    let empty_grant = s % 9 == 4;
+                    if s % 5 == 0 && !empty_grant {
                         must(
                             exec(&mut d, owner, Cw20ExecuteMsg::DecreaseAllowance { spender: spender.to_string(), amount: Uint128::new(3), expires: None }),
                             "partial decrease",
                         );
                     }
-                    if s % 7 == 0 && !(unfunded_pivot && by_owner) {
+                    if s % 7 == 0 && !empty_grant && !(unfunded_pivot && by_owner) {
                         must(
                             exec(&mut d, spender, Cw20ExecuteMsg::TransferFrom { owner: owner.to_string(), recipient: bank.to_string(), amount: Uint128::new(2) }),
                             "partial draw",
